@@ -37,6 +37,10 @@ CHECKS = {
   text="Seeded simulation of front/back/fork/rev histories on konst's range iterators obtained through into_iter! (by value and by reference) for all 12 integer types and char, compared step by step with core::ops range iterators; for_each! (plain, rev() adapter, inherent rev) on the range values and on forked mid-iteration iterators. Bounds biased to MIN/MAX/0/-1, inverted and empty ranges, the surrogate gap; u8/i8 pairs additionally sampled uniformly (visited-pair count reported). Sampling, not proof.",
   note="Trusted: core::ops range iterators. RangeFrom never stepped to MAX's successor. Spans <= 40 (300).",
   tech=TECH),
+ "C01": dict(cat="exploration", ref="DESIGN.md 6 (C01)",
+  text="SCOPED to the code the simulated histories execute. (a) Natively, in every world and after every step: each non-empty returned slice/str/array reference lies inside the datum it was derived from, each &str is valid UTF-8 on char boundaries of the datum, each char is a scalar value, no dead slot / double drop / drop of garbage (ledger). Includes free-mode histories (mixed next/next_back and mid-iteration rev on Split/RSplit) that have no std counterpart. (b) Under Miri: a sample of the same plans from every world plus the by-value fault sweep (a third of its cells per quick run chosen by the seed, all cells in thorough); any 'Undefined Behavior' diagnostic is a violation with the plan as replay (re-executed under Miri by ./check replay).",
+  note="NOT decided: the input-space clause for functions no history calls with adversarial arguments (get_* / *_mut slicing with out-of-range indices, try_into_array, as_rchunks, ffi::cstr, ptr, maybe_uninit, manually_drop) and 'under compile-time evaluation' (no const item is evaluated). Trusted: Miri (nightly 2026-05-03) as UB oracle, address arithmetic of the containment check.",
+  tech="deterministic simulation: seeded operation-history search in every world with containment/UTF-8/ledger invariants after each step, re-executed under Miri as UB oracle, fault sweep, minimised replay"),
  "C15": dict(cat="fault_enumeration", ref="DESIGN.md 6 (C15)",
   text="By-value world under fault injection with a drop/move ledger. Stage 1 enumerates the fault space completely: every fault site (Clone inside ArrayConsumer/ArrayBuilder::clone, Drop inside their Drop impls, the closure of map_!/from_fn_!/map!/from_fn! with panic/break/continue/return, the three misuse panics) x N in {0,1,2,3,5,8} x callback index k in 1..=N+1. Stage 2 samples seeded histories (takes from both ends, as_slice/as_mut_slice swaps, clone, Debug, assert_is_empty, early drop, mem::forget, push/build circulation array->consumer->caller->builder->array, 18 destructure! shapes incl. `_`/`..`/packed/generic/16-tuple, u32 copy(), zero-sized Drop elements) with 1-3 armed faults; after EVERY step each token ever created must have a drop count inside the model's allowed range (exactly-once on completing paths, never twice anywhere), identities/order/payload bit-for-bit as the model says.",
   note="Trusted: the ledger token (Clone/Drop bookkeeping in a thread-local), std Vec/VecDeque as model, catch_unwind. Tokens held inside konst at a fault may be dropped 0 or 1 times. Drop order not compared. The fault space is swept completely; the histories around the faults are sampled.",
